@@ -383,7 +383,9 @@ func runC03(c *Ctx) {
 			for _, hyp := range []string{"topo", "ff"} {
 				v := schedHypNote(detail, hyp)
 				r.hist("hyp_" + hyp + "_" + v)
-				if v == "no" {
+				if v == "no" && res.Final == "complete" {
+					// (a run that did not complete — a known runtime defect reported above — is not a
+					// failure-free history: mrp itself wrote an error)
 					r.violate(Violation{Kind: "correspondence", Key: "C03:hypothesis-fails-on-real-run:" + hyp,
 						What:   "a hypothesis of failure_free_run_completes_exactly_once (" + hyp + ") does not hold on the history of a real failure-free run: " + detail,
 						Input:  map[string]interface{}{"program": src, "spec": cs.spec.Name, "seed": cs.spec.Seed, "trace": res.Trace},
